@@ -46,6 +46,8 @@ def xworld(ctx):
 
 
 def run(ctx):
+    from .common import array_hazard_sweep
+    array_hazard_sweep(ctx, "R3", ("xsf", "cromermann", "magnetic_ff"), "a second call with the same array, or the caller's own later use of it, sees changed values (vector and scalar calls no longer agree)")
     F = folder(ctx)
     _reader(ctx, F)          # (the concrete probe table first: its verdicts stand whatever the symbolic part can follow)
     _factors(ctx)
@@ -320,17 +322,6 @@ def _sld(ctx):
         want = re_ * NA * rho / Mmv * sp.Rational(1, 10 ** 8) * ((q[0] + q[1]) * f("Fe", col, E) + q3 * f("O", col, E))
         eq(ctx, "R3", f"{'rho' if i == 0 else 'irho'} of a mixed-valence compound (Fe2+, Fe2-, O): every charge state is counted",
            realise(gmv[i]), realise(want), site, nonzero=[Mmv])
-    # caller-owned arrays (Q, energy, wavelength ...) are neither updated in place nor retained by reference
-    from ptstat.taint import caller_array_hazards
-    nfun = 0
-    for qual, fn in ctx.src.funcs.items():
-        if fn.module in ("xsf", "cromermann", "magnetic_ff") and isinstance(fn.node, ast.FunctionDef):
-            nfun += 1
-            for why, node in caller_array_hazards(fn.node):
-                ctx.fail("R3", f"{qual}: {why}", f"{ast.unparse(node)[:80]}: a second call with the same array, or the caller's own later use of it, "
-                         "sees changed values (vector and scalar calls no longer agree)", f"{ctx.src.where(fn.module, node)} {qual}")
-    ctx.ok("R3", "no x-ray calculator updates a caller-supplied array in place or keeps a reference to it", site="periodictable/xsf.py, cromermann.py, magnetic_ff.py",
-           sample={"functions": nfun})
     e0 = I.call(xs, [I.call(I.global_name("formulas", "formula"), [], {})], {"density": rho, "energy": E})
     ctx.check(tuple(e0) == (0, 0), "R3", "the empty formula has zero SLD", f"{_s(e0)}", site)
     # Xray.sld for a bare element / isotope = one-atom compound at that atom's density
